@@ -8,6 +8,8 @@ cd "$WT" || exit 9
 git checkout -q -- xeofs
 git checkout -q --detach "${BASE:-$(git -C /repo rev-parse HEAD)}"    # same baseline as /repo (incl. later fix: commits) unless BASE is given
 echo "baseline $(git rev-parse --short HEAD)"
+# the demonstrations of cross-set changes expect the statsmodels import shim at <worktree>/_mutant/stubs
+[ -e "$WT/_mutant/stubs" ] || { mkdir -p "$WT/_mutant" && ln -sfn /verif/stubs "$WT/_mutant/stubs"; }
 echo "== clean: demo"; /venv/bin/python "$MD/demo.py" > /tmp/em_clean.$$.out 2>&1; C=$?; tail -2 /tmp/em_clean.$$.out
 git apply "$MD/patch.diff" || { echo "patch does not apply"; exit 9; }
 echo "== mutated: test suite"; /venv/bin/python -m pytest -q -p no:cacheprovider -n 8 --timeout=900 2>&1 | tail -1
